@@ -255,6 +255,14 @@ pub fn parse_file_internal(context: &ParseContext) -> Result<(), Error> {
         current_path
     };
 
+    // devices, pipes and directories can be opened, but are not source files (and may never end)
+    if current_path.exists() && !current_path.is_file() {
+        bail!(
+            "Cannot read file {} because: it is not a regular file",
+            current_path.to_string_lossy()
+        );
+    }
+
     let mut file = match File::open(&current_path) {
         Ok(file) => file,
         Err(err) => bail!(
